@@ -14,3 +14,7 @@ for _f in sorted(glob.glob(os.path.join(os.path.dirname(os.path.abspath(__file__
     PROPS.update(_ns.get("PROPS", {}))
     NOT_APPLICABLE.update(_ns.get("NOT_APPLICABLE", {}))
 PROPS = dict(sorted(PROPS.items()))
+
+# Properties whose checks are finished (quiet on the unchanged tree, sensitivity-tested):
+# only these are claimed in MANIFEST.json; the driver can run any configured property.
+CLAIMED = ["C01", "C19"]
